@@ -55,9 +55,9 @@ PROPS = {
     level_text="Unbounded proof: Tokenizer::next ensures tok_post: only whitespace skipped, span in bounds on char boundaries, cursor at span end, token text = source slice (string payload between equal quotes with no such quote inside, number parses to the carried Decimal); keyword::is_op is the disjunction of the registry predicates; tok_class: greedy longest symbolic operator, word operators only as whole words, a name directly followed by `(` is a function name, boolean keywords, digit runs; lemma_tok_unique: these clauses determine the token (the scanner is a function of input, cursor and registry).",
     level_note="Operator sets are the registry predicates (uninterpreted): the proof holds for every registered operator set.",
     not_covered=["that the registry predicate reg_opb on bytes is the registry's view (keyword::is_op answers by the text; A8)"]),
- 'C12': dict(units=['pr', 'tp'], assumptions=[A1, A2, A3, A6],
+ 'C12': dict(units=['pr', 'tp', 'lb'], assumptions=[A1, A2, A3, A6],
     level_text="Unbounded proof: expr(t)@ == render(t) for every AST, render written from the grammar (parenthesisation rules per position, quote choice, separators). That render inverts the parser needs parser completeness (not proved).",
-    always_bounded=dict(function='round trip parse -> expr() -> parse through the real parser (that render inverts the parser)', categories=['parse'],
+    always_bounded=dict(function='round trip parse -> expr() -> parse through the real parser (that render inverts the parser)', categories=['parse', 'script'],
         why="expr() is proved equal to the spec function render; that render is a right inverse of the real parser needs parser completeness, which is outside the contracts' reach",
         bound="fixed + seeded corpus of vx/corpus.py (about 3 900 inputs: every ordered pair of operators plain and negated, long flat chains and nesting up to depth 150, string literals with multi-byte characters at every offset, prefix/postfix/conditional/call/list/map forms, corruptions of valid programs, multi-byte neighbours, random expressions of depth <= 3) against the reference grammar of vx/oracle.py"),
     level_note="Printer against a spec function; see DESIGN.md 5 C12.", not_covered=["that render inverts the real parser in general (needs completeness) - bounded stand-in only"]),
